@@ -33,9 +33,34 @@ class SigOracle:
        over    : z3 Bool ("made over the bytes now being verified")  or
        over_bytes : list of byte terms that were signed (compared with msg byte-wise)
     Keys carry their material id in value[0] and their scheme as the enum variant index."""
-    def __init__(self,eng):
+    RING_ALG={'ED25519':'Ed25519','RSA_PSS_2048_8192_SHA256':'RsaSsaPssSha256','RSA_PSS_2048_8192_SHA512':'RsaSsaPssSha512','ECDSA_P256_SHA256_ASN1':'EcdsaP256Sha256'}
+    def __init__(self,eng,ring_level=True):
         self.eng=eng; self.b=B(eng)
-        eng.stub(r'(^|::)PublicKey::verify$',self.verify,'crypto::PublicKey::verify [ideal-signature oracle]')
+        if not ring_level:
+            eng.stub(r'(^|::)PublicKey::verify$',self.verify,'crypto::PublicKey::verify [ideal-signature oracle]')
+            return
+        # the oracle sits at the boundary of the cryptographic library: `PublicKey::verify` itself (scheme dispatch, error mapping and
+        # whatever else it does) runs from MIR; only ring's `UnparsedPublicKey::{new,verify}` is idealised
+        eng.stub(r'^(ring::signature::)?UnparsedPublicKey::new$',self.ring_new,'ring::signature::UnparsedPublicKey::new [records algorithm and key bytes]')
+        eng.stub(r'^(ring::signature::)?UnparsedPublicKey::verify$',self.ring_verify,'ring::signature::UnparsedPublicKey::verify [ideal-signature oracle]')
+    def ring_new(self,e,run,a,f):
+        alg=deref(a[0])
+        name=alg.kind.split(':',1)[1] if isinstance(alg,Opaque) and alg.kind.startswith('static:') else None
+        if name not in self.RING_ALG: raise Unsupported('ring verification algorithm '+repr(alg)[:60])
+        return Opaque('RingKey',{'alg':name,'bytes':list(byte_list(a[1]))})
+    def ring_verify(self,e,run,a,f):
+        key=deref(a[0]); msg=a[1]; sigb=byte_list(a[2])
+        if not sigb or not isinstance(sigb[0],int): raise Unsupported('symbolic signature tag')
+        g=run.ghost['sigs'][sigb[0]]
+        mat=key.p['bytes'][0]
+        conds=[g['intact'], g['made_by']==(mat if not isinstance(mat,int) else z3.BitVecVal(mat,8))]
+        if g.get('scheme') is not None:
+            conds.append(g['scheme']==self.eng.enums['SignatureScheme'].index(self.RING_ALG[key.p['alg']]))
+        if 'over_bytes' in g: conds.append(bytes_eq(g['over_bytes'],byte_list(msg)).z())
+        else: conds.append(g['over'])
+        run.log.append(('verify',key.p['alg'],sigb[0]))
+        if run.branch_bool(Bool(z3.And(*conds)),'sigvalid'): return ok(UNIT)
+        return err(Opaque('ring::error::Unspecified'))
     def valid_term(self,run,key,sig,msg=None):
         key=deref(key); sig=deref(sig)
         tag=deref(deref(self.b.get(sig,'value')).f[0]).items[0]
